@@ -13,25 +13,25 @@ ENGINES = [
 ]
 TEXT = {
     'C02': {
-        'level': 'Every template with <=3 (quick) / <=4 (thorough) nodes derivable from the documented grammar - 47 leaf tags ({var:}/{raw:} with name, index and mixed paths, resolvable or not; {math:}; {svar:} with var/raw/math sub-tags, missing and non-text phrases; {if} with sub-tags, variable-only and unevaluable cases), <if>/<else if>/<elseif />/<else>/<else /> over 7 cases, <loop> over arrays, objects (keys), sorted both ways, grouped, root set, missing/scalar sets and nested loops over the outer value, nesting <=3 - is rendered against 6 value trees (base, wrong kinds, numbers, array root, removed members, empty) as char and char32_t in SSE2, AVX2 and scalar builds and compared with an independent reference interpreter written from Documentation/Template.md. Where the document and the pinned suite leave a point open (unresolved {var:NAME[path]} inside an object loop; unevaluable inline-if case) the reference admits both readings, applied uniformly per rendering.',
+        'level': 'Every template with <=3 (quick) / <=4 (thorough) nodes derivable from the documented grammar - 47 leaf tags ({var:}/{raw:} with name, index and mixed paths, resolvable or not; {math:}; {svar:} with var/raw/math sub-tags, missing and non-text phrases; {if} with sub-tags, variable-only and unevaluable cases), <if>/<else if>/<elseif />/<else>/<else /> over 7 cases, <loop> over arrays, objects (keys), sorted both ways, grouped, root set, missing/scalar sets and nested loops over the outer value, nesting <=3 - is rendered against 6 value trees (base, wrong kinds, numbers, array root, removed members, empty) as char and char32_t in SSE2, AVX2 and scalar builds and compared with an independent reference interpreter written from Documentation/Template.md. Where the document and the pinned suite leave a point open (unresolved {var:NAME[path]} inside an object loop; unevaluable inline-if case) the reference admits both readings, applied uniformly per rendering. Every template is rendered a second time through pointer twins of the value trees (every top-level member behind a pointer-to-value, the root handed in as a pointer) and through the other public Render overloads (terminated text, stream returned by value); array subscripts that are no index (huge, non-numeric) are among the leaf tags.',
         'design_ref': 'DESIGN.md §5 C02, Appendix A',
         'note': 'Reference interpreter (props/C02.cpp) and expression reference (ref/expr_ref.hpp) are the trusted base; reals need at most two fraction digits; sort judged on uniform arrays and objects. Known finding: inline-if attributes in an order other than case-first are documented but not implemented.',
         'technique': 'bounded-exhaustive grammar enumeration on the implementation with differential reference interpreter',
     },
     'C16': {
-        'level': 'An allocation ledger plugged into the seam the library\'s own tests use (Memory::Allocate/Deallocate -> MemoryRecord) is checked between ALL transitions of breadth-first operation-history searches (depth 4 quick / 5 thorough, canonical-state dedup) over Array<int>, Array<Tracked>, String, StringStream, HArray, HList, Value (all of the C12-C14 alphabets) and a dedicated tag-cache lifetime system (parse 12 templates covering every tag kind, copy, move, self-assign, clear, reset, compress, drop, append, destroy in either order, render through either cache = fresh render); and after every text of the JSON unit space (every rejected text included) and the template token/deviation space (every malformed template included, rendered directly and through a copied cache whose original is destroyed first). Unknown release = foreign/double release; live blocks when all objects are gone = leak; the ASan variant adds use-after-release.',
+        'level': 'An allocation ledger plugged into the seam the library\'s own tests use (Memory::Allocate/Deallocate -> MemoryRecord) is checked between ALL transitions of breadth-first operation-history searches (depth 4 quick / 5 thorough, canonical-state dedup) over Array<int>, Array<Tracked>, String, StringStream, HArray, HList, Value (all of the C12-C14 alphabets) and a dedicated tag-cache lifetime system (parse 12 templates covering every tag kind, copy, move, self-assign, clear, reset, compress, drop, append, destroy in either order, render through either cache = fresh render); and after every text of the JSON unit space (every rejected text included) and the template token/deviation space (every malformed template included, rendered directly and through a copied cache whose original is destroyed first). Unknown release = foreign/double release; live blocks when all objects are gone = leak; the ASan variant adds use-after-release. An expression-arrays stage assigns every element of parsed expression arrays to every other by move and by copy.',
         'design_ref': 'DESIGN.md §5 C16',
         'note': 'The ledger sees Memory::Allocate/Deallocate only (the library has no other allocation path); histories and inputs up to the stated bounds.',
         'technique': 'explicit-state BFS over operation histories and bounded-exhaustive inputs on the implementation with an allocation-ledger invariant on every state',
     },
     'C17': {
-        'level': 'Stateless model checking of the real renderer under a hand-written controlled scheduler: 2 and 3 renders run as coroutines; clang trace-loads/trace-stores instrumentation makes every load and store of the code under test a hook; every access to memory that is not the coroutine\'s own stack or its own allocation is a scheduling point and is entered into per-granule reader/writer sets. ALL schedules with <=1 (quick) / <=2 (thorough, 2 threads) preemptions are executed for 48 configurations (16 templates covering every tag kind incl. sort/group x shared value / different values). After each schedule: every output equals a fresh single render, the canonical dump of the tag cache and the values are unchanged, stream prefixes intact, and no shared granule was written by one render and touched by another. Zero conflicts on the serial schedule means every interleaving is equivalent to the serial one (no happens-before edges exist in the code), which makes the bounded result complete for the configuration. Plus all histories of <=3/4 sequential steps (cached renders into fresh/pre-filled streams, cache copy, cache move) per template, and a free-running ThreadSanitizer pass of the same bodies on 4 OS threads.',
+        'level': 'Stateless model checking of the real renderer under a hand-written controlled scheduler: 2 and 3 renders run as coroutines; clang trace-loads/trace-stores instrumentation makes every load and store of the code under test a hook; every access to memory that is not the coroutine\'s own stack or its own allocation is a scheduling point and is entered into per-granule reader/writer sets. ALL schedules with <=1 (quick) / <=2 (thorough, 2 threads) preemptions are executed for 48 configurations (16 templates covering every tag kind incl. sort/group x shared value / different values). After each schedule: every output equals a fresh single render, the canonical dump of the tag cache and the values are unchanged, stream prefixes intact, and no shared granule was written by one render and touched by another. Zero conflicts on the serial schedule means every interleaving is equivalent to the serial one (no happens-before edges exist in the code), which makes the bounded result complete for the configuration. Plus all histories of <=3/4 sequential steps (cached renders into fresh/pre-filled streams, cache copy, cache move) per template, and a free-running ThreadSanitizer pass of the same bodies on 4 OS threads. Odd threads and five history operations render through the public Template::Render(content, length, value, stream, cache) overload (parsed cache; emptied cache parsed again); storage, capacity and size of the tag array must survive a render.',
         'design_ref': 'DESIGN.md §2 E4, §5 C17',
         'note': 'Sequential consistency; allocator internals and libc outside the monitor; schedules replay deterministically (a divergence while replaying a prefix is a harness error).',
         'technique': 'preemption-bounded exhaustive schedule exploration (CHESS-style) of the implementation with a data-race/conflict monitor',
     },
     'C03': {
-        'level': 'Bounded-exhaustive: every string of <=5 (quick) / <=6 (thorough, 34 M) units over {& < > \" \' ; a m p l t g q u o s x NUL} through StringUtils::EscapeHTMLSpecialChars from exact-size buffers in three widths; every proper prefix and one-unit corruption of the five entities x tails x prefixes (entity look-alikes at every distance from the end); every string of <=3/4 units and all entity products through 8 printing positions of the renderer ({var:}, {raw:}, loop key, super-variable phrase, svar sub-tags, inline-if true/false sub-tags, echoed source of an unresolved tag). Oracle: no raw < > \" \', & only as the start of one of the five entities, decode(out)==decode(in), escaping is idempotent, {raw:} verbatim, stream prefix intact; a second build with QENTEM_AUTO_ESCAPE_HTML=0 requires {var:} == {raw:}.',
+        'level': 'Bounded-exhaustive: every string of <=5 (quick) / <=6 (thorough, 34 M) units over {& < > \" \' ; a m p l t g q u o s x NUL} through StringUtils::EscapeHTMLSpecialChars from exact-size buffers in three widths; every proper prefix and one-unit corruption of the five entities x tails x prefixes (entity look-alikes at every distance from the end); every string of <=3/4 units and all entity products through 8 printing positions of the renderer ({var:}, {raw:}, loop key, super-variable phrase, svar sub-tags, inline-if true/false sub-tags, echoed source of an unresolved tag). Oracle: no raw < > \" \', & only as the start of one of the five entities, decode(out)==decode(in), escaping is idempotent, {raw:} verbatim, stream prefix intact; a second build with QENTEM_AUTO_ESCAPE_HTML=0 requires {var:} == {raw:}. The string is also planted behind pointer-to-value members and items, a pointer root, array items, nested members and as a group name; a wide-units stage runs 16/32-bit units above 0xFF/0xFFFF whose low byte/half is a special character through the escaper and every position.',
         'design_ref': 'DESIGN.md §5 C03',
         'note': 'Strings over the stated alphabet only (all other units are copied unchanged by construction of the escaper\'s switch).',
         'technique': 'bounded-exhaustive input enumeration on the implementation with algebraic oracle',
@@ -55,19 +55,19 @@ TEXT = {
         'technique': 'explicit-state BFS over reachable Value states plus bounded-exhaustive product set, round-trip oracle on the implementation',
     },
     'C18': {
-        'level': 'Bounded-exhaustive: every array of <=3 (quick) / <=4 (thorough, 24 M arrays) objects drawn from 7 grouping values of different kinds with colliding texts (1, \"1\", 2, 2.5, true, null, \"x\") x 10 object shapes (key at every position, extra members of every kind, a removed member before/after the key, a member reset to undefined, the other member removed, key only). GroupBy and <loop group=> are compared with a reference partition (first-appearance order, members in input order minus the key); the source array must be unchanged and a dirty destination replaced.',
+        'level': 'Bounded-exhaustive: every array of <=3 (quick) / <=4 (thorough, 24 M arrays) objects drawn from 7 grouping values of different kinds with colliding texts (1, \"1\", 2, 2.5, true, null, \"x\") x 10 object shapes (key at every position, extra members of every kind, a removed member before/after the key, a member reset to undefined, the other member removed, key only). GroupBy and <loop group=> are compared with a reference partition (first-appearance order, members in input order minus the key); the source array must be unchanged and a dirty destination replaced. Grouping values include two reals that differ in the third decimal (11 values, 110 element kinds).',
         'design_ref': 'DESIGN.md §5 C18',
         'note': 'Every generated object contains the grouping key (property scope).',
         'technique': 'bounded-exhaustive input enumeration on the implementation with reference partition',
     },
     'C12': {
-        'level': 'Explicit-state breadth-first search over histories of ~215 operations on two Value registers plus a pointee: 54 actions (every assignment overload, every += overload, Merge copy/move, Remove x3, RemoveIndex, Reset, Compress, Sort, Get, Insert, four [] overloads, pointer-to-value) applied at the root and at child paths reached through the creating accessors, 17 constructors executed in 0xAB-filled storage, partner operations on the second register. After every transition both registers and the pointee are compared node by node with an abstract document model through the whole public read API (kinds, sizes, lookups by index/key/StringView, keys, strings, all numeric/boolean coercions, iteration order, Stringify). Depth 3 (quick) / 4 (thorough, state cap reported).',
+        'level': 'Explicit-state breadth-first search over histories of ~215 operations on two Value registers plus a pointee: 54 actions (every assignment overload, every += overload, Merge copy/move, Remove x3, RemoveIndex, Reset, Compress, Sort, Get, Insert, four [] overloads, pointer-to-value) applied at the root and at child paths reached through the creating accessors, 17 constructors executed in 0xAB-filled storage, partner operations on the second register. After every transition both registers and the pointee are compared node by node with an abstract document model through the whole public read API (kinds, sizes, lookups by index/key/StringView, keys, strings, all numeric/boolean coercions, iteration order, Stringify). Depth 3 (quick) / 4 (thorough, state cap reported). The alphabet includes a value merged into itself, const merges of a member into its holder (also a member named like its holder), a child table assigned its ancestor\'s table; the read set includes keyed reads of arrays with keys that are no index.',
         'design_ref': 'DESIGN.md §5 C12',
         'note': 'Positional access into objects is compared only while the object holds no removed entries (as the property states); SetPointerToValue(nullptr) and operator=(ValueType) are not in the alphabet (their meaning is not specified); Sort on mixed-kind arrays is left to C15.',
         'technique': 'explicit-state BFS over operation histories on the implementation with an abstract-document reference model compared after every transition',
     },
     'C15': {
-        'level': 'Exhaustive over small alphabets on the real operators: all ordered pairs and all triples of the 341 strings of length <=4 over {a,b,0x01} through String, StringView, the const C* overloads and StringUtils::IsLess/IsGreater in char/char16_t/char32_t against the lexicographic reference (trichotomy, <=/>= unions, prefix-first, transitivity); all pairs and triples of 36 values of every kind including pointer-to-value; every array of length <=5 over 4 values (duplicates, prefix chain) through Array<int>, Array<String>, Value arrays, <loop sort>, HArray keys and Value object keys with and without a removed member, ascending and descending (ordered permutation, lookups afterwards, caller\'s value untouched).',
+        'level': 'Exhaustive over small alphabets on the real operators: all ordered pairs and all triples of the 341 strings of length <=4 over {a,b,0x01} through String, StringView, the const C* overloads and StringUtils::IsLess/IsGreater in char/char16_t/char32_t against the lexicographic reference (trichotomy, <=/>= unions, prefix-first, transitivity); all pairs and triples of 36 values of every kind including pointer-to-value; every array of length <=5 over 4 values (duplicates, prefix chain) through Array<int>, Array<String>, Value arrays, <loop sort>, HArray keys and Value object keys with and without a removed member, ascending and descending (ordered permutation, lookups afterwards, caller\'s value untouched). For 16/32-bit units the alphabet\'s fourth unit lies above 0xFF/0xFFFF with the low byte/half of \'a\'.',
         'design_ref': 'DESIGN.md §5 C15',
         'note': 'String units below 0x80 only (signedness of char is not part of the property).',
         'technique': 'exhaustive enumeration of pairs/triples/small arrays on the implementation',
@@ -79,7 +79,7 @@ TEXT = {
         'technique': 'explicit-state BFS over operation histories on the implementation, ordered-map reference model + structural invariants on every state',
     },
     'C14': {
-        'level': 'Explicit-state breadth-first search (depth 5 quick / 6 thorough, canonical-state dedup) over ~45-operation alphabets on two registers each of Array<int>, Array<Tracked> (owning element that counts constructions/destructions), String<char|char16_t>, StringStream<char|char32_t>, including self-aliasing operations (a+=a, s.Write(s.First()..), stream<<stream); std::vector / std::basic_string reference models are compared after every transition through the public read API (contents, length, NUL terminator, Size<=Capacity, First/Last/End, iteration, all comparison operators, StringView over the same contents). Runs under ASan with and without the exact-fit growth hook, plus a fast SSE2 build. Memory::Copy and SetToZero: every length 0..4096 (quick 0..300) x 32 source x 32 destination misalignments with guard bytes against memcpy/memset in scalar, SSE2 and AVX2 builds.',
+        'level': 'Explicit-state breadth-first search (depth 5 quick / 6 thorough, canonical-state dedup) over ~45-operation alphabets on two registers each of Array<int>, Array<Tracked> (owning element that counts constructions/destructions), String<char|char16_t>, StringStream<char|char32_t>, including self-aliasing operations (a+=a, s.Write(s.First()..), stream<<stream); std::vector / std::basic_string reference models are compared after every transition through the public read API (contents, length, NUL terminator, Size<=Capacity, First/Last/End, iteration, all comparison operators, StringView over the same contents). Runs under ASan with and without the exact-fit growth hook, plus a fast SSE2 build. Memory::Copy and SetToZero: every length 0..4096 (quick 0..300) x 32 source x 32 destination misalignments with guard bytes against memcpy/memset in scalar, SSE2 and AVX2 builds. Array appended to itself by move; the wide String/StringStream instantiations use a unit above 0xFF/0xFFFF.',
         'design_ref': 'DESIGN.md §5 C14',
         'note': 'Histories up to the stated depth over the stated alphabets; capacities compared only where the API documents them; Tracked tolerates bitwise relocation.',
         'technique': 'explicit-state BFS over operation histories on the implementation with reference-model comparison; exhaustive length/alignment enumeration for the copy primitives',
@@ -103,7 +103,7 @@ TEXT = {
         'technique': 'exhaustive enumeration of finite numeric lattices on the implementation, differential against printf',
     },
     'C09': {
-        'level': 'Complete enumeration of described numeral lattices on the real converter: all significands up to 4-5 digits x every decimal-point position x every exponent -345..+325 x sign/exponent spellings; all integers within +-2000 of 0, 2^63, 2^64, 10^k; exact decimal expansions of doubles and of midpoints between adjacent doubles (ties) for 16-64 mantissa patterns x all 2047 binary exponents, truncated to 17..400..all digits; the 1.7e308..1e310 band; every string of <=6-7 units over {0 1 9 . e E + -}. Oracle: glibc strtod, consumed length, exact integer arithmetic.',
+        'level': 'Complete enumeration of described numeral lattices on the real converter: all significands up to 4-5 digits x every decimal-point position x every exponent -345..+325 x sign/exponent spellings; all integers within +-2000 of 0, 2^63, 2^64, 10^k; exact decimal expansions of doubles and of midpoints between adjacent doubles (ties) for 16-64 mantissa patterns x all 2047 binary exponents, truncated to 17..400..all digits; the 1.7e308..1e310 band; every string of <=6-7 units over {0 1 9 . e E + -}. Oracle: glibc strtod, consumed length, exact integer arithmetic. Zero-padded exponents (0..25 zeros); every accepted numeral is read again through the overload without an offset and from offset 2 of a longer buffer (same kind, bits, consumed length).',
         'design_ref': 'DESIGN.md §5 C09',
         'note': 'Covers the stated lattices, not all numerals; glibc strtod/printf trusted; ties either way (1 ulp); underflow-to-zero may be reported as NaN; exact-size buffers (ASan variant) catch over-reads.',
         'technique': 'exhaustive enumeration of finite numeral lattices on the implementation, differential against strtod',
@@ -115,13 +115,13 @@ TEXT = {
         'technique': 'bounded-exhaustive input enumeration (prefix-tree walk) on the implementation under ASan/guard pages',
     },
     'C06': {
-        'level': 'All RFC 8259 container documents with <=K nodes (depth<=3, arity<=3, all duplicate-key patterns) x whitespace policies, plus every scalar of large string/numeral pools (all escape forms, all planes, 64-bit boundaries, extremes) in every syntactic context, parsed in UTF-8/16/32 and compared structurally with an independent strict reference parser (itself cross-checked against python json.loads on each run).',
+        'level': 'All RFC 8259 container documents with <=K nodes (depth<=3, arity<=3, all duplicate-key patterns) x whitespace policies, plus every scalar of large string/numeral pools (all escape forms, all planes, 64-bit boundaries, extremes) in every syntactic context, parsed in UTF-8/16/32 and compared structurally with an independent strict reference parser (itself cross-checked against python json.loads on each run). Every document is also parsed through the terminated-text overload and twice through one caller-supplied stream; numerals with zero-padded exponents and escapes of single surrogates (judged for UTF-16/32) are in the pools.',
         'design_ref': 'DESIGN.md §5 C06',
         'note': 'Trusted: ref/json_ref.hpp (+python cross-check), glibc strtod. Numerals beyond the double range are not generated.',
         'technique': 'bounded-exhaustive grammar enumeration with differential reference parser',
     },
     'C07': {
-        'level': 'For every generated valid container document: all proper prefixes (code point and UTF-8 code-unit cuts), every non-whitespace 7-bit unit and 7 whitespace look-alikes as suffix, every closing bracket swapped or removed must yield Undefined; plus every string of <=N units over the JSON alphabet: any accepted text must be a complete tree that survives Stringify+Parse.',
+        'level': 'For every generated valid container document: all proper prefixes (code point and UTF-8 code-unit cuts), every non-whitespace 7-bit unit and 7 whitespace look-alikes as suffix, every closing bracket swapped or removed must yield Undefined; plus every string of <=N units over the JSON alphabet: any accepted text must be a complete tree that survives Stringify+Parse. A quote-inside-escape stage rejects strings whose closing quote stands among the four units behind a \\u.',
         'design_ref': 'DESIGN.md §5 C07',
         'note': 'Lenient number forms (+1, 0x1F, .5) are complete values for this parser and outside the statement\'s family.',
         'technique': 'bounded-exhaustive enumeration of rejection families on the implementation',
